@@ -137,10 +137,14 @@ fn main() {
     std::panic::set_hook(Box::new(|_| {}));
     let mut out = Out::create(&outp);
     let backend = if cfg!(feature = "alloc") { "heap" } else { "stack" };
+    let limit: u64 = std::env::var("VERIF_HANG_SECS").ok().and_then(|s| s.parse().ok()).unwrap_or(60);
     for r in read_records(&inp) {
-        let res = match catch_unwind(AssertUnwindSafe(|| one(&r))) {
-            Ok(v) => v,
-            Err(_) => json!({"r": "panic", "v": [], "k": 0, "h": [], "s": false}),
+        // an operation that does not return within VERIF_HANG_SECS (default 60 s) is data: r = "hang"
+        let r2 = r.clone();
+        let res = match call_with_limit(limit, move || catch_unwind(AssertUnwindSafe(|| one(&r2)))) {
+            Some(Ok(v)) => v,
+            Some(Err(_)) => json!({"r": "panic", "v": [], "k": 0, "h": [], "s": false}),
+            None => json!({"r": "hang", "v": [], "k": 0, "h": [], "s": false}),
         };
         let mut o = r.clone();
         o["backend"] = json!(backend);
